@@ -122,14 +122,14 @@ void ll_rw_block(int rw, int op_flags, int nr, struct buffer_head *bhp[])
 {
 	CHECK(nr == 1, "one buffer per request");
 	struct buffer_head *bh = bhp[0];
+	/* no branch on b_dirty / b_uptodate around the device event (a conditional change of a buffer head costs the
+	 * verifier a merge of the whole object): a request that the real ll_rw_block would ignore is reported instead */
 	if (rw == REQ_OP_WRITE) {
 		CHECK(bh->b_dirty, "a write request on a buffer that is not marked dirty would write nothing");
-		if (bh->b_dirty)
-			jw_dev_write(bh);
-	} else if (rw == REQ_OP_READ) {
-		CHECK(!bh->b_uptodate, "a read request on a buffer marked up to date would read nothing");
-		if (!bh->b_uptodate)
-			jw_dev_read(bh);
+		jw_dev_write(bh);
+	} else {
+		CHECK(rw == REQ_OP_READ && !bh->b_uptodate, "a read request on a buffer marked up to date would read nothing");
+		jw_dev_read(bh);
 	}
 }
 
@@ -239,6 +239,24 @@ void jbd2_commit_block_csum_set(journal_t *j, struct buffer_head *bh)
 	CHECK(g.sealed == 1, "the block checksum is set after the last change to the block and before its write"); \
 	CHECK(B((bh)->b_data)[g_kd] == g.seal_k, "the block reaches the log exactly as it was when its checksum was set"); \
 	g.sealed = 0; } while (0)
+
+#ifdef JW_WANT_MEMCPY16
+/*
+ * libc memcpy as journal_add_blocks_to_trans uses it (16 UUID bytes into the descriptor buffer): source readable,
+ * destination writable for n bytes (asserted), and the copy is performed at ONE ghost byte index g_ku (true of memcpy
+ * for every index).  Every observation the monitors make is an exact-value comparison, so a byte of the block that a
+ * full copy would corrupt is seen corrupted in the run whose g_ku is that byte.  (The built-in model copies 16 bytes
+ * to a symbolic offset of the block: 1.5 M clauses per iteration.)
+ */
+void *memcpy(void *dst, const void *src, size_t n)
+{
+	CHECK(n == 16 && g_ku < 16, "memcpy: the 16 UUID bytes");
+	CHECK(__CPROVER_r_ok(src, n) && __CPROVER_w_ok(dst, n), "memcpy: source readable, destination writable, n bytes each");
+	CHECK(__CPROVER_same_object(dst, JW_META_BH), "memcpy: into the descriptor buffer");
+	B(dst)[g_ku] = B(src)[g_ku];
+	return dst;
+}
+#endif
 
 #ifdef JW_WANT_FREAD
 /* fread(buf, j_blocksize, 1, fp): one block from the data file, or nothing (end of file / error) */
